@@ -145,11 +145,7 @@ func (v JV) toGo() (stick.Value, error) {
 		}
 		return stick.NewSafeValue(g, v.Types...), nil
 	case "go":
-		f, ok := fixtures[v.ID]
-		if !ok {
-			return nil, fmt.Errorf("unknown fixture %q", v.ID)
-		}
-		return f(), nil
+		return fixtureByID(v.ID)
 	}
 	return nil, fmt.Errorf("cannot build value of kind %q", v.T)
 }
@@ -237,6 +233,3 @@ func fromGoD(x stick.Value, depth int) JV {
 	}
 	return JV{T: "go", GoT: tn}
 }
-
-// fixtures: Go values that cannot be written in TLA+; the spec refers to them by id.
-var fixtures = map[string]func() stick.Value{}
